@@ -41,6 +41,14 @@ def make_target(d, kind, seed):
                 f.write(img if i % 2 == 0 else container.opaque_payload(seed + i, 50 + i))
         p = os.path.join(d, {"absent": ["target.tdf", "t\u00e4rget \u20ac.tdf", "name with space .tdf", "~tilde.tdf", "x" * 200 + ".tdf"][seed % 5],
                              "absent-no-suffix": "walk", "absent-other-suffix": "walk.dat", "absent-upper-suffix": "walk.TDF"}[kind])
+        # ... and files under the names a writer might use for staging / locking / backing up next to ITS target: they are not the target
+        base = os.path.basename(p)
+        if len(base) < 200:
+            for i, nm in enumerate([base + ".part", base + ".tmp", base + "~", base + ".bak", base + ".new", base + ".lock", "." + base, "." + base + ".swp", base + ".partial",
+                                    base + ".temp", "tmp" + base, os.path.splitext(base)[0] + ".tmp"]):
+                if (seed >> 3) % 3 != 2 and not os.path.exists(os.path.join(d, nm)):
+                    with open(os.path.join(d, nm), "wb") as f:
+                        f.write(container.opaque_payload(seed + 100 + i, 30 + i))
         return p, None
     # existing targets come under plain and under awkward names too (an existence test that normalises, strips or expands the name would miss them)
     p = os.path.join(d, ["target.tdf", "t\u00e4rget \u20ac.tdf", "name with space .tdf", "~tilde.tdf", "x" * 200 + ".tdf", "target.tdf", "UPPER.TDF", "trailing-dot.tdf."][seed % 8])
@@ -228,7 +236,7 @@ def copy_strategy(tier):
     return st.fixed_dictionaries({"target": st.sampled_from(ABSENT_KINDS + ["absent"] + TARGETS[1:]), "path": st.sampled_from(PATH_KINDS),
                                   "inside_context": st.sampled_from([False, False, True]),
                                   "seed": st.integers(0, 10 ** 6), "source": container.init_images(), "followup": st.lists(op, max_size=5),
-                                  "source_via_library": st.booleans(), "call": st.sampled_from(CALL_STYLES),
+                                  "source_via_library": st.booleans(), "call": st.sampled_from(CALL_STYLES), "zero_tail": st.sampled_from([None, None, "small", "one-chunk", "many-chunks"]),
                                   "source_path": st.sampled_from(["direct", "direct", "symlink-abs", "symlink-rel", "symlink-chain", "hardlink"])})
 
 
@@ -246,6 +254,18 @@ def run_copy(ctx, case):
                           "cdate": 3, "mdate": 4}, "via": "api", "comment": "made by history"})
             it.leave()
             src_path = it.path
+            zt = case.get("zero_tail")
+            if zt:
+                # a source whose last stretch is nothing but zero bytes (a recording of silence; a sparse-aware copier must still copy it)
+                from basictdf import Tdf as _T
+                with _T(src_path).allow_write() as w_:
+                    parsed_ = reftdf.parse_container(open(src_path, "rb").read())
+                    live_ = [e["type"] for _, e in reftdf.live(parsed_)]
+                    if reftdf.TYPE_CODE["emg"] not in live_ and len(live_) < parsed_["nEntries"]:
+                        n_ = {"small": 3000, "one-chunk": 40000, "many-chunks": 300000}[zt]
+                        w_.add_block(specs.build({"t": "emg", "format": 1, "frequency": 1000, "startTime": 0, "nSamples": n_, "_chmode": "explicit",
+                                                  "signals": [{"label": "silence", "channel": 0, "frames": [0] * n_}]}))
+                        ctx.label("source:zero-tail-" + zt)
             src_bytes = open(src_path, "rb").read()
             p, before = make_target(d, case["target"], case["seed"])
             how_src = case.get("source_path", "direct")
